@@ -31,10 +31,37 @@ def addrs(n):
     return ["10.0.0.%d" % (i + 1) for i in range(n)]
 
 
+class TickingTime(object):
+    """`time` for cassandra.pool: the virtual clock plus one microsecond per read at the same
+    virtual instant.  HostConnection.borrow_connection loops `remaining = timeout - time.time() +
+    start; if remaining < 0: break; cond.wait(remaining)`: on a clock that stands still between two
+    reads `remaining == 0.0` exactly at the deadline and the loop spins forever (a real clock
+    always moves).  Only needed where a pool is busy."""
+
+    def __init__(self, sim):
+        self.sim = sim
+        self.vt = sim.vtime
+        self.at = None
+        self.k = 0
+
+    def time(self):
+        now = self.vt.time()
+        if now != self.at:
+            self.at, self.k = now, 0
+        self.k += 1
+        return now + 1e-6 * min(self.k, 1000)
+
+    def __getattr__(self, name):
+        return getattr(self.vt, name)
+
+
 def build(sim, n, profile, version=4, max_in_flight=None, keyspace=None, **cluster_kw):
     """n fake nodes + a connected real Cluster/Session (pools to every node).  Returns
     (cluster, session, nodes)."""
     from cassandra.cluster import EXEC_PROFILE_DEFAULT
+    import cassandra.pool as P
+    if max_in_flight is not None:
+        sim.patch.set(P, "time", TickingTime(sim))
     nodes = [sim.net.add_node(a) for a in addrs(n)]
     cc = sim.net.connection_class()
     if max_in_flight is not None:
